@@ -23,7 +23,8 @@ def rule(prop, rid, title, floor, family="F-PATH", decides=""):
 
 
 def unpack_source(fnode, name):
-    """(source expression, index) if `name` is bound by a tuple-unpacking assignment  a, b = <src>  /  a, b = x, y."""
+    """(source expression, index) if `name` is bound by a tuple-unpacking assignment  a, b = <src>  /  a, b = x, y;
+    for the nested form  (k1, v1), (k2, v2) = <src>  the index is a tuple (outer, inner)."""
     for n in walk_function(fnode):
         if isinstance(n, ast.Assign) and len(n.targets) == 1 and isinstance(n.targets[0], (ast.Tuple, ast.List)):
             for i, t in enumerate(n.targets[0].elts):
@@ -31,6 +32,10 @@ def unpack_source(fnode, name):
                     if isinstance(n.value, (ast.Tuple, ast.List)) and len(n.value.elts) == len(n.targets[0].elts):
                         return n.value.elts[i], None
                     return n.value, i
+                if isinstance(t, (ast.Tuple, ast.List)):
+                    for j, t2 in enumerate(t.elts):
+                        if isinstance(t2, ast.Name) and t2.id == name:
+                            return n.value, (i, j)
     return None, None
 
 
@@ -52,9 +57,11 @@ def formal_position(fi, e, depth=0):
         if src is not None:
             if idx is None:
                 return formal_position(fi, src, depth + 1)
-            # a, b = X.formal_attributes[:2]  -> position idx
+            # a, b = X.formal_attributes[:2]  -> position idx ;  (k1, v1), (k2, v2) = X.formal_attributes[:2] -> outer index
             if isinstance(src, ast.Subscript) and isinstance(src.value, ast.Attribute) and src.value.attr in ("formal_attributes", "args"):
                 lo = src.slice.lower.value if isinstance(src.slice, ast.Slice) and src.slice.lower is not None and isinstance(src.slice.lower, ast.Constant) else 0
+                if isinstance(idx, tuple):
+                    return lo + idx[0] if idx[1] == 1 else None
                 return lo + idx
             return None
         d = [x for x in all_assignments(fi.node, e.id) if x is not None]
@@ -82,7 +89,16 @@ def c14_r2(ctx: Ctx, rule):
                      "graph_to_prov takes inferred endpoint nodes for declared records: the round trip invents elements")
     gq = GR + ".graph_to_prov"
     gf = ctx.fn(gq)
-    tests = [n for n in walk_function(gf.node) if isinstance(n, ast.Compare) and isinstance(n.ops[0], ast.IsNot) and isinstance(n.comparators[0], ast.Constant) and n.comparators[0].value is None and isinstance(n.left, ast.Attribute) and n.left.attr in ("bundle", "_bundle")]
+    tests = []
+    for n in walk_function(gf.node):
+        if isinstance(n, ast.Compare) and isinstance(n.ops[0], (ast.IsNot, ast.Is)) and isinstance(n.comparators[0], ast.Constant) and n.comparators[0].value is None and isinstance(n.left, ast.Attribute) and n.left.attr in ("bundle", "_bundle"):
+            if isinstance(n.ops[0], ast.IsNot):
+                tests.append(n)
+            else:
+                # inverted guard: `if ... or node.bundle is None: continue`
+                for t in walk_function(gf.node):
+                    if isinstance(t, ast.If) and any(x is n for x in ast.walk(t.test)) and any(isinstance(b, (ast.Continue, ast.Return)) for b in t.body):
+                        tests.append(n)
     res.ob("graph_to_prov keeps only nodes whose bundle is not None: %s" % bool(tests))
     if not tests:
         res.fail(rule.id, "inferred-sentinel::filter", ctx.loc(gq, gf.node), "graph_to_prov no longer filters nodes on `bundle is not None`", "inferred nodes are added to the rebuilt document")
